@@ -118,16 +118,19 @@ class CfgInfo(object):
                         P = m.parent_class_map[V]
                         pt = P.__table__
                         strategy = m.option(P, 'strategy')
+                        end_col = m.option(P, 'end_transaction_column_name')
                         if vt.name not in vt_ids:
                             names = [c.name for c in vt.c]
                             pkc = [c.name for c in vt.c if c.primary_key and c.name != self.tx_col]
-                            cols = [n for n in names if n not in pkc and n not in (self.tx_col, self.end_col, self.op_col)
+                            cols = [n for n in names if n not in pkc and n not in (self.tx_col, end_col, self.op_col)
                                     and not (n.endswith('_mod') and n[:-4] in names)]
                             vt_ids[vt.name] = len(self.vtables)
+                            pol = sa.inspect(P).polymorphic_on
+                            disc = cols.index(pol.name) if pol is not None and getattr(pol, 'table', None) is pt and pol.name in cols else None
                             self.vtables.append({'name': vt.name, 'table': vt, 'pk_cols': pkc, 'cols': cols,
                                                  'mods': [c + '_mod' for c in cols] if cols and all((c + '_mod') in names for c in cols) else [],
-                                                 'validity': strategy == 'validity' and self.end_col in names,
-                                                 'parent_table': pt})
+                                                 'validity': strategy == 'validity' and end_col in names, 'end_col': end_col,
+                                                 'parent_table': pt, 'disc': disc})
                         info = self.vtables[vt_ids[vt.name]]
                         amap = []
                         for cn in info['cols']:
@@ -170,6 +173,9 @@ class CfgInfo(object):
         for name, a in sorted(self.assoc.items(), key=lambda kv: kv[1]['tid']):
             if a['table'] in m.association_tables:
                 lines.append('assoctbl %d' % a['tid'])
+        for tid, vt in enumerate(self.vtables):
+            if vt.get('disc') is not None:
+                lines.append('nullkeep %d %d' % (tid, vt['disc']))      # polymorphic discriminator column
         return lines
 
 
@@ -354,7 +360,7 @@ class Tracer(object):
         out = []
         info = self.info
         for tid, vt in enumerate(info.vtables):
-            cols = vt['pk_cols'] + [info.tx_col] + ([info.end_col] if vt['validity'] else []) + [info.op_col] + vt['cols'] + vt['mods']
+            cols = vt['pk_cols'] + [info.tx_col] + ([vt['end_col']] if vt['validity'] else []) + [info.op_col] + vt['cols'] + vt['mods']
             sql = 'SELECT %s FROM %s' % (', '.join('"%s"' % c for c in cols), self._tname(vt['table']))
             for r in self.q(sql):
                 r = list(r)
@@ -386,7 +392,7 @@ class Tracer(object):
         for name, a in self.info.assoc.items():
             if a['vtable'] is None:
                 continue
-            cols = a['cols'] + [self.info.tx_col, 'operation_type']
+            cols = a['cols'] + [self.info.tx_col, self.info.op_col]
             for r in self.q('SELECT %s FROM %s' % (', '.join('"%s"' % c for c in cols), self._tname(a['vtable']))):
                 out.append('%d %s %d %d' % (a['tid'], fmt_list([dec_val(x) for x in r[:len(a['cols'])]]), r[-2], r[-1]))
         out.sort()
